@@ -154,6 +154,9 @@ def build(seed, for_feedforward=False):
         sensors.append(m)
         desc.append(dict(cls=cls, modes=modes, n=int(len(e)), lever=lever,
                          inside=int(((e >= start) & (e < end)).sum())))
+    # the order in which the sensors are listed is the caller's business: any permutation (the sequential models judge by class and time)
+    if len(sensors) > 1 and frng.random() < 0.6:
+        sensors = [sensors[i] for i in frng.permutation(len(sensors))]
     meas_arg = sensors
     if not sensors:
         meas_arg = None if rng.random() < 0.5 else []
